@@ -110,6 +110,8 @@ class StoreJudge:
     # ---- main entry
     def feed(self, op, line):
         self.line_no += 1
+        if getattr(self, "_belt_broken", False):
+            return      # a valid call or the kernel raised on this conveyor: what is on the belt is unknown from here on
         k = op[0]
         head, trig = parse_line(line)
         adv_end = None
@@ -400,6 +402,9 @@ class StoreJudge:
             if not head.startswith("item "):
                 self.v("C02", f"get with granted reservation {tid} by its owner failed: {head}")
                 self.v("C07", f"valid get rejected: {head}")
+                if self.family in ("slot", "cbelt"):
+                    self.v("C20", f"a valid get on the conveyor raised {head}", "kernel-exception")
+                    self._belt_broken = True
                 if self.cancelled_granted_get:
                     self.v("C06", f"cancelling a granted retrieval disturbed another one: get with granted reservation {tid} failed: {head}", "disturbed")
                 t.state = "used"
